@@ -26,7 +26,7 @@ class Ghost:
         self.count = 0
 
 
-OPS = ['set_some', 'set_none', 'reserve', 'u8', 'u16', 'slice', 'tlv', 'type', 'batch']
+OPS = ['set_some', 'set_none', 'reserve', 'u8', 'u16', 'slice', 'tlv', 'tlvs', 'type', 'batch']
 
 
 def do_op(e, prog, b, op, i, g):
@@ -58,7 +58,7 @@ def do_op(e, prog, b, op, i, g):
     elif op == 'type':
         r = e.call_fn(F('write_payload'), [b, Enum('v2::model::Type', 'NoOp', [])], {'T': 'v2::model::Type'})
         enc, n, over = [4], 1, False
-    elif op in ('slice', 'tlv', 'batch'):
+    elif op in ('slice', 'tlv', 'tlvs', 'batch'):
         P = z3.Function('p%d' % i, z3.IntSort(), z3.IntSort())
         N = z3.Int('n%d' % i)
         e.assume(z3.And(N >= 0, N <= BIGLEN))
@@ -74,6 +74,13 @@ def do_op(e, prog, b, op, i, g):
             s2 = ArrSlice([y])
             r = e.call_fn(F('write_payloads'), [b, Tuple([s, s2])], {'T': '&[u8]', 'II': '[&[u8]; 2]', 'I': 'std::array::IntoIter<&[u8], 2>'})
             enc, n, over = ([y] if empty else [s, y]), N + 1, z3.Or(N > 65535, Z(before) + N > 65535)
+        elif op == 'tlvs':
+            # a hand-built TypeLengthValue (public fields, no length check at construction) written with write_payload
+            t = z3.Int('t%d' % i)
+            e.assume(z3.And(t >= 0, t <= 255))
+            tv = mk_struct(prog, 'src/v2/model.rs', 'TypeLengthValue', 'v2::model::TypeLengthValue', {'kind': t, 'value': Enum(models.COW, 'Borrowed', [s])})
+            r = e.call_fn(F('write_payload'), [b, tv], {'T': "v2::model::TypeLengthValue<'_>"})
+            enc, n, over = [t, N / 256, N % 256] + ([] if empty else [s]), N + 3, N > 65535
         else:
             t = z3.Int('t%d' % i)
             e.assume(z3.And(t >= 0, t <= 255))
@@ -85,11 +92,14 @@ def do_op(e, prog, b, op, i, g):
         # "below its size limit" is read conservatively: the writer must still be below the limit (16 + 65535
         # bytes) after the fixed-size part of the encoding (3 bytes of a TLV, the whole of an integer / Type,
         # the first item of a batch); a value that crosses the limit may legitimately fail part-way
-        fixed = {'u8': 1, 'u16': 2, 'type': 1, 'slice': 0, 'tlv': 3}.get(op)
+        fixed = {'u8': 1, 'u16': 2, 'type': 1, 'slice': 0, 'tlv': 3, 'tlvs': 3}.get(op)
         if op == 'batch':
             fixed = N
         over = z3.Or(Z(over) if not isinstance(over, bool) else z3.BoolVal(over), Z(before) + Z(fixed) > 65535)
         return None, ('write_err', i, op, over, before)
+    # a write that SUCCEEDS with a single value above 65535 bytes is itself a violation (C09 / C20: it must be refused)
+    if not (isinstance(over, bool) and over is False):
+        g.over_ok = or_(getattr(g, 'over_ok', False), Z(over) if not isinstance(over, bool) else over)
     for x in enc:
         if isinstance(x, (Str, ArrSlice)):
             g.exp.push_slice(x)
@@ -331,6 +341,8 @@ def history_spec(ctor, ops, m, proto_k):
             parts.append('slice:%d' % val('n%d' % i))
         elif op == 'tlv':
             parts.append('tlv:%d:%d' % (val('t%d' % i), val('n%d' % i)))
+        elif op == 'tlvs':
+            parts.append('tlvs:%d:%d' % (val('t%d' % i), val('n%d' % i)))
         elif op == 'batch':
             parts.append('batch:%d:%d' % (val('n%d' % i), val('bb%d' % i)))
     return ';'.join(parts)
@@ -403,7 +415,7 @@ def check_history2(prog, ctor, ops, props):
                 # realisable sizes for the native replay
                 s.push()
                 for i, op in enumerate(ops):
-                    if op in ('slice', 'tlv', 'batch'):
+                    if op in ('slice', 'tlv', 'tlvs', 'batch'):
                         s.add(z3.Int('n%d' % i) <= 200000)
                 r2 = s.check()
                 if r2 == z3.sat:
@@ -419,6 +431,18 @@ def check_history2(prog, ctor, ops, props):
 
 def history_badness(outc, notes):
     """{property: (violation formula, description)} for one explored path of a history"""
+    bad = _history_badness(outc, notes)
+    if outc[0] != 'panic':
+        g = [x for x in notes if x[0] == 'hist'][0][2]
+        ov = getattr(g, 'over_ok', False)
+        if ov is not False:
+            for prop in ('C09', 'C20'):
+                f0, d0 = bad.get(prop, (False, ''))
+                bad[prop] = (or_(f0, ov), (d0 + '; or ' if d0 else '') + 'a write accepted a single value of more than 65535 bytes')
+    return bad
+
+
+def _history_badness(outc, notes):
     if outc[0] == 'panic':
         t = z3.BoolVal(True)
         return {'C09': (t, 'panic: %s' % outc[1]), 'C10': (t, 'panic: %s' % outc[1]), 'C20': (t, 'panic: %s' % outc[1])}
